@@ -38,11 +38,13 @@ try:
     for p in a.props:
         t0 = time.time()
         r = subprocess.run([os.path.join(verif, "check"), p, "--tier", a.tier, "--no-evidence"], cwd=verif,
-                           stdout=subprocess.PIPE, stderr=subprocess.DEVNULL, text=True)
+                           stdout=subprocess.PIPE, stderr=subprocess.PIPE, text=True)
         lines = [l for l in r.stdout.splitlines() if l.startswith(("VIOLATION", "UNDECIDED", "NOT-REPRODUCED", "KNOWN-FINDING"))]
         print(f"SELFTEST {a.revert or a.patch} {p}: exit={r.returncode} {time.time()-t0:.0f}s", flush=True)
         for l in lines[:12]:
             print("    " + l.replace(verif, "<scratch>"), flush=True)
+        if r.returncode == 3 and time.time() - t0 < 30:
+            print("    stderr tail: " + " | ".join(r.stderr.strip().splitlines()[-6:]))
         rc_all = max(rc_all, r.returncode)
 finally:
     if not a.keep:
